@@ -72,7 +72,16 @@ def run(ctx):
     for cname in ('ChemicalIndexer', 'MaterialIndexer'):
         g = prog.method(cname, 'reset_chemicals', rel='thermosteam/indexer.py')
         cp = g.params[2]
-        ps_, _ = run_paths(g.node, decide=lambda t, st, cp=cp: (False if src(t) == '%s is None' % cp else True if src(t) in ('%s is not None' % cp, cp) else None))
+        from ..pathcond import scenario_decide as _sdc
+
+        def _given(t, cp=cp):
+            # scenario: the optional argument is given
+            if isinstance(t, ast.Name) and t.id == cp:
+                return True
+            if isinstance(t, ast.Compare) and len(t.ops) == 1 and src(t.left) == cp and isinstance(t.comparators[0], ast.Constant) and t.comparators[0].value is None:
+                return isinstance(t.ops[0], (ast.IsNot, ast.NotEq))
+            return None
+        ps_, _ = run_paths(g.node, decide=_sdc(_given))
         ps_ = [p for p in ps_ if not p.raised]
         okk = bool(ps_)
         for p in ps_:
